@@ -18,7 +18,7 @@
 
   clause                                               theorem
   ---------------------------------------------------  ---------------------------------------------
-  reply to its own request and no other                correlation, facts_reconciled
+  reply to its own request and no other                correlation, facts_reconciled, config_today
   request ids unique per session (IDGen)               ids_unique
   one reply per operation, nothing after return        reply_once
   progress results in order, none after return         progress_order_and_closure
@@ -36,20 +36,33 @@ open Nexus.Client Nexus.Gen
 
 /-! ## what the model takes from the source, re-checked on every run -/
 
-/-- The facts about client.go the hand-written model relies on: the reply channel is unbuffered,
-    `runSignalReply` selects on (send, c.Done()), the three selects of the wait functions, one
-    `delete(c.awaitingReply, id)` in each, the CANCEL mode is `c.cancelMode`, the invocation queue
-    and result channel have capacity 1, the IsNewRecvID gate guards worker creation. -/
+/-- The facts about client.go the hand-written model relies on: the reply channel is unbuffered and
+    comes with a `gone` channel; `runSignalReply` selects on (send, gone, c.Done()); the three
+    selects of the wait functions; each wait function ends in one `doneWaiting`, which deletes the
+    `awaitingReply` entry and then closes `gone`; the CANCEL mode is `c.cancelMode`; the invocation
+    queue and result channel have capacity 1; the IsNewRecvID gate guards worker creation; a
+    repeat after an invocation's final message is dropped; the enqueue select has its two escapes;
+    only `Close()` closes the peer. -/
 theorem facts_reconciled :
-    Client.replyChanCap = 0 ∧
-    Client.signalSelect = ["send w", "recv c.Done()"] ∧
+    Client.replyChanCap = 0 ∧ Client.replyWaiterHasGone = true ∧
+    Client.signalSelect = ["send w.ch", "recv w.gone", "recv c.Done()"] ∧
     Client.waitForReplySelects = ["recv wait | recv timer.C | recv c.Done()"] ∧
     Client.waitForReplyWithCancelSelects =
       ["recv wait | recv ctx.Done() | recv c.Done()", "recv wait | recv timer.C"] ∧
-    Client.waitForReplyDeletes = 1 ∧ Client.waitForReplyWithCancelDeletes = 1 ∧
+    Client.waitForReplyDoneWaitingCalls = 1 ∧ Client.waitForReplyWithCancelDoneWaitingCalls = 1 ∧
+    Client.doneWaitingDeletes = 1 ∧ Client.doneWaitingClosesGone = 1 ∧ Client.doneWaitingDeleteFirst = true ∧
+    Client.waitForReplyDeletes = 0 ∧ Client.waitForReplyWithCancelDeletes = 0 ∧
     Client.cancelModeExprs = ["c.cancelMode"] ∧
     Client.invQueueCap = 1 ∧ Client.resChanCap = 1 ∧ Client.invGateChecked = true ∧
+    Client.invFinalGate = true ∧ Client.invFinalSet = true ∧ Client.invFinalCleared = true ∧
+    Client.enqueueSelect = ["send handlerQueue", "recv ctx.Done()", "recv c.sess.RecvDone()"] ∧
+    Client.sessCloseCallers = ["Close"] ∧ Client.abortSessionEndsRecv = true ∧
     Client.recvDefaultExits = false := by decide
+
+/-- … from which the model's configuration is derived. -/
+theorem config_today :
+    R.cfgToday.signalEscapes = true ∧ R.cfgToday.deletesEntry = true ∧ R.cfgToday.abortClosesSend = false ∧
+    ({} : I.Cfg).invGate = true ∧ ({} : I.Cfg).finalGate = true ∧ ({} : I.Cfg).enqueueEscapes = true := by decide
 
 /-- Every reply-type case of `runReceiveFromRouter` signals by the message's `Request` field. -/
 theorem signals_by_request : ∀ c ∈ Client.recvSwitch, c.kind = "signal" → c.arg = "Request" := by decide
@@ -160,10 +173,13 @@ theorem invocation_once (cfg : I.Cfg) (st : I.State) (hr : I.Reachable cfg st) :
          (cfg.invGate = true → isNewRecvID st.lastRecv (UInt64.ofNat i.req) = true)) ∧
     (∀ i, cfg.invGate = true → isNewRecvID st.lastRecv (UInt64.ofNat i.req) = false →
        I.findLive st i.reg i.req st.n = none → I.accept cfg st i = st.emit (.ignored i.req)) ∧
+    (∀ i w, cfg.finalGate = true → I.findLive st i.reg i.req st.n = some w → (st.ws w).final = true →
+       I.accept cfg st i = st.emit (.repeated i.req)) ∧
     (∀ w, ∀ i ∈ (st.ws w).handled, i.req = (st.ws w).req ∧ i.reg = (st.ws w).reg) := by
   have hi := I.allInv_reachable cfg st hr
   exact ⟨hi.live.2, fun ev st' h hn => I.worker_created_only_when_new cfg st ev st' h hn,
-    fun i hg ho hn => I.stale_invocation_ignored cfg st i hg ho hn, hi.matching.2.1⟩
+    fun i hg ho hn => I.stale_invocation_ignored cfg st i hg ho hn,
+    fun i w hg hl hf => I.repeated_final_dropped cfg st i w hg hl hf, hi.matching.2.1⟩
 
 /-- Today the gate is in place. -/
 theorem gate_in_place : ({} : I.Cfg).invGate = true := by decide
